@@ -62,8 +62,26 @@ FLAVOURS = {
     "custom": (lambda k: CKey(k),               lambda x: x.v),
 }
 
-def fv(v): return "N" if v is None else str(v)
-def pv(s): return None if s == "N" else int(s)
+class EqVal:
+    """a value object that compares equal to every other EqVal (and hashes alike) while carrying its own number:
+    a store that is skipped because the new value `==` the old one, or any other confusion of equality with identity,
+    shows as the old number where the new one is expected"""
+    __slots__ = ("n",)
+    def __init__(self, n): self.n = n
+    def __eq__(self, o): return isinstance(o, EqVal)
+    def __hash__(self): return 7
+    def __repr__(self): return f"EqVal({self.n})"
+VALMODE = ["plain"]
+def norm(x):
+    """oracle comparisons look at the numbers the EqVals carry, not at their (always true) equality"""
+    if isinstance(x, EqVal): return ("ev", x.n)
+    if isinstance(x, (list, tuple)): return type(x)(norm(y) for y in x)
+    if isinstance(x, dict): return {k: norm(v) for k, v in x.items()}
+    return x
+def fv(v): return "N" if v is None else (str(v.n) if isinstance(v, EqVal) else str(v))
+def pv(s):
+    if s == "N": return None
+    return EqVal(int(s)) if VALMODE[0] == "eq" else int(s)
 def fkv(k, v): return f"{k}:{fv(v)}"
 def flist(xs): return "[" + ",".join(xs) + "]"
 def parse_pairs(s):
@@ -155,6 +173,7 @@ class Exec:
     def reset(self):
         self.t = None; self.d = None; self.dead = False
         self.enc, self.dec = FLAVOURS["int"]
+        VALMODE[0] = "plain"
         self.last_h = 0; self.last_leaves = 1
     def fail(self, tag, msg):
         self.stats["oracle_failures"] += 1
@@ -174,7 +193,7 @@ class Exec:
         except Exception as e:
             self.fail("C08", f"items() raised {type(e).__name__}"); return
         want = sorted(d.items())
-        if got != want: self.fail("C08", f"items()={got[:8]}.. expected {want[:8]}..")
+        if norm(got) != norm(want): self.fail("C08", f"items()={got[:8]}.. expected {want[:8]}..")
         try:
             n = len(t)
             if n != len(d): self.fail("C07", f"len={n} expected {len(d)}")
@@ -206,6 +225,9 @@ class Exec:
             if len(ws) == 3 and ws[1] == "flavour":
                 self.enc, self.dec = FLAVOURS[ws[2]]
                 self.stats["flavours"][ws[2]] = self.stats["flavours"].get(ws[2], 0) + 1
+            if len(ws) == 3 and ws[1] == "values":      # value representation: plain ints, or always-equal objects
+                VALMODE[0] = ws[2]
+                self.stats["flavours"]["values-" + ws[2]] = self.stats["flavours"].get("values-" + ws[2], 0) + 1
             self.emit(line, "ok"); return
         assert ws[0] == "P", line
         self.opno += 1
@@ -226,7 +248,7 @@ class Exec:
         if ans == "keyerror": self.stats["keyerrors"] += 1
         self.emit(line, ans)
     def cmp(self, tag, what, got, want):
-        if got != want: self.fail(tag, f"{what}: got {got!r} expected {want!r}")
+        if norm(got) != norm(want): self.fail(tag, f"{what}: got {got!r} expected {want!r}")
     def do(self, op, a):
         enc, dec = self.enc, self.dec
         if op == "new":
@@ -376,6 +398,7 @@ def gen_case_ops(r, n, ex, kind):
     cap = r.pick(caps)
     flav = r.pick(["int", "int", "str", "tuple", "float", "custom"])
     yield f"flavour {flav}"
+    if r.chance(20): yield "cfg values eq"
     if r.chance(6):
         bad = r.below(4)
         yield f"P new {bad}"
